@@ -9,6 +9,7 @@ import (
 	"os"
 	"os/exec"
 	"path/filepath"
+	"runtime"
 	"runtime/debug"
 	"strconv"
 	"strings"
@@ -240,6 +241,9 @@ type c17Run struct {
 	// snapshot paths (c17_paths.go)
 	dbPath string   // the path the database was opened with (absolute or relative to the history's directory)
 	ptpls  []string // templates used so far
+	// metadata calls made by the reader of a restore (c17_meta.go)
+	mcalls int64
+	mlog   *c17mLog
 }
 
 func newC17Run(stats map[string]int) (*c17Run, error) {
@@ -678,6 +682,12 @@ func (h *c17Run) genOp(r *rng) {
 		}
 	case x < 80:
 		h.opSnapId()
+	case x < 83:
+		if c := c17mGenCall(r, 25); c.kind == "t" {
+			h.genTimeline(r)
+		} else {
+			h.opCall(c)
+		}
 	case x < 95:
 		h.genTimeline(r)
 	default:
@@ -886,6 +896,11 @@ func (h *c17Run) replay(line string) {
 		case "restorer":
 			k, sc := c17xParseScript(t)
 			h.opRestoreReader(k, sc)
+		case "restorec":
+			k, sc := c17xParseScript(t)
+			h.opRestoreReaderCb(k, sc, c17mParseCbs(t))
+		case "call":
+			h.opCall(c17mParseCall(t))
 		default:
 			panic("c17: unknown op " + op)
 		}
@@ -972,6 +987,8 @@ func runC17(o *opts) error {
 		}
 		if i%8 == 5 {
 			h.genReaderSweep(r)
+		} else if i%8 == 7 {
+			h.genMetaSweep(r)
 		} else if i%8 == 3 {
 			h.genPathSweep(r)
 		} else {
@@ -989,7 +1006,7 @@ func runC17(o *opts) error {
 			rounds = 3
 		}
 		for round := 0; round < rounds; round++ {
-			for _, mode := range []string{"plain", "batch", "snapshot", "rootbucket", "snapintx", "nested", "listeners"} {
+			for _, mode := range []string{"plain", "batch", "snapshot", "rootbucket", "snapintx", "nested", "listeners", "metadata"} {
 				cases.line("R %s %d", mode, ms)
 				impl.line("%s", c17RaceChild(mode, ms, o.seed+int64(round), o.out))
 				stats["race_"+mode]++
@@ -1010,6 +1027,8 @@ type c17RaceResult struct {
 	NewSeen  int64    `json:"tx_saw_new"`
 	Mixtures []string `json:"mixtures"`
 	Errors   []string `json:"errors"`
+	Metadata []string `json:"metadata"` // "snapid ..." / "timeline ...": stale or foreign metadata (mode metadata)
+	Polls    int64    `json:"polls"`
 	Stuck    string   `json:"stuck"`
 }
 
@@ -1056,6 +1075,9 @@ func c17RaceChild(mode string, ms int, seed int64, out string) string {
 		return "R stuck " + hxs(res.Stuck)
 	case len(res.Mixtures) > 0:
 		return "R mixture " + hxs(res.Mixtures[0])
+	case len(res.Metadata) > 0:
+		f := strings.SplitN(res.Metadata[0], " ", 2)
+		return "R " + f[0] + " " + hxs(f[1])
 	case len(res.Errors) > 0:
 		return "R error " + hxs(res.Errors[0])
 	case res.Txs == 0 || res.Restores == 0:
@@ -1153,7 +1175,9 @@ func runC17Race(o *opts) error {
 		default:
 		}
 	}
-	var restoreEpoch int64 // number of completed restores
+	var restoreEpoch int64   // number of completed restores
+	var restoreStarted int64 // number of restores begun
+	var polls int64
 	check := func(kind string, vals []uint64, err error, epoch0 int64) {
 		if err != nil {
 			report("error", kind+": "+err.Error())
@@ -1195,6 +1219,9 @@ func runC17Race(o *opts) error {
 					return verr
 				})
 				check("reader", vals, e, epoch0)
+			case mode == "metadata" && id%2 == 1:
+				c17mRacePoll(db, id, n, snapIds, &restoreStarted, &restoreEpoch, report)
+				atomic.AddInt64(&polls, 1)
 			case mode == "snapshot" && id%2 == 1:
 				_, _, e = db.Snapshot(filepath.Join(dir, fmt.Sprintf("w%d", id)))
 				if e != nil {
@@ -1300,7 +1327,18 @@ func runC17Race(o *opts) error {
 					}
 				}()
 				data := snaps[g%len(snaps)]
-				if mode == "listeners" {
+				atomic.AddInt64(&restoreStarted, 1)
+				if mode == "metadata" {
+					// a snapshot that takes a while to arrive: many small reads, the scheduler invited in between
+					sc := c17xScript{flav: "r", length: len(data), failAt: -1, eofd: g%2 == 1, rest: []int{997, 4096, 2048, 8191}[g%4]}
+					rd := newC17xReader(data, sc)
+					rd.hook = func(int) { runtime.Gosched() }
+					var src io.Reader = struct{ io.Reader }{rd}
+					if g%3 == 1 {
+						src = c17xWriterTo{rd}
+					}
+					db.RestoreFromReader(src)
+				} else if mode == "listeners" {
 					// through readers of different behaviour
 					sc := c17xScript{flav: "r", length: len(data), failAt: -1, eofd: g%2 == 0, rest: []int{0, 1000, 4096, len(data), 32768}[g%5]}
 					var rd io.Reader = struct{ io.Reader }{newC17xReader(data, sc)}
@@ -1318,12 +1356,18 @@ func runC17Race(o *opts) error {
 			atomic.AddInt64(&progress, 1)
 			if id, ierr := db.GetSnapshotId(); ierr != nil || id == nil {
 				report("error", "GetSnapshotId after restore failed")
+			} else if mode == "metadata" && *id != snapIds[g%len(snapIds)] {
+				// nobody writes the meta bucket's snapshot id here: until the next restore it is that of the restored snapshot
+				report("metadata", fmt.Sprintf("snapid after restore %d (of snapshot %d) returned, with GetSnapshotId pollers running during it, GetSnapshotId reports the id of snapshot %d",
+					g, g%len(snapIds)+1, c17mRaceWhich(*id, snapIds)))
+			}
+			if mode == "metadata" {
+				c17mRaceTimelineAfter(db, g, &restoreStarted, report)
 			}
 			g++
 			time.Sleep(time.Duration(300+g%5*200) * time.Microsecond)
 		}
 	}()
-	_ = snapIds
 
 	deadline := time.Now().Add(time.Duration(ms) * time.Millisecond)
 	last, lastChange := int64(-1), time.Now()
@@ -1359,11 +1403,14 @@ func runC17Race(o *opts) error {
 	}
 	res.Txs, res.Restores = atomic.LoadInt64(&txs), atomic.LoadInt64(&restores)
 	res.OldSeen, res.NewSeen = atomic.LoadInt64(&oldSeen), atomic.LoadInt64(&newSeen)
+	res.Polls = atomic.LoadInt64(&polls)
 	for {
 		select {
 		case p := <-problems:
 			if p[0] == "mixture" {
 				res.Mixtures = append(res.Mixtures, p[1])
+			} else if p[0] == "metadata" {
+				res.Metadata = append(res.Metadata, p[1])
 			} else {
 				res.Errors = append(res.Errors, p[1])
 			}
